@@ -74,6 +74,8 @@ pub enum Op {
     Del(u8),
     /// batch of (key index, is_put)
     Batch(Vec<(u8, bool)>),
+    /// batch of puts whose first value is larger than a WAL block (the log record spans blocks)
+    BatchBig(Vec<u8>),
     /// `compact_range(Some(z)..Some(z))`, z above every key: flushes the memtable only
     Flush,
     /// `compact_range(begin..end)`, key indices or open
@@ -112,6 +114,7 @@ impl Op {
                     .collect::<Vec<_>>()
                     .join(",")
             ),
+            Op::BatchBig(v) => format!("batchbig[{}]", v.iter().map(|i| esc(&keys[*i as usize])).collect::<Vec<_>>().join(",")),
             Op::Flush => "flush".into(),
             Op::Compact(a, b) => format!(
                 "compact({}..{})",
@@ -438,6 +441,22 @@ impl World {
                             self.model.remove(&k);
                         }
                     }
+                }
+            }
+            Op::BatchBig(items) => {
+                self.stamp += 1;
+                let mut b = Batch::new();
+                let mut staged: Vec<(Vec<u8>, Vec<u8>)> = vec![];
+                for (j, k) in items.iter().enumerate() {
+                    let key = self.keys[*k as usize].clone();
+                    let val = value_for(self.stamp * 10 + j as u64, *k, if j == 0 { 1 } else { 0 }, &self.cfg);
+                    b.add_put(key.clone(), val.clone());
+                    staged.push((key, val));
+                }
+                let r = self.db().apply(WriteOptions::default(), b);
+                self.write_result("apply", r)?;
+                for (k, v) in staged {
+                    self.model.insert(k, v);
                 }
             }
             Op::Flush => {
